@@ -470,4 +470,89 @@ def JobGuard.step (g : JobGuard) : GStep → JobGuard
 
 def JobGuard.run (g : JobGuard) (l : List GStep) : JobGuard := l.foldl JobGuard.step g
 
+/-! ## E. manifest snapshot / restore of the rollup bookkeeping (restart)
+
+Every open of a store (`storeVersionSet.recover` → `initJournal`) replays the manifest into fresh
+versions and then writes a NEW manifest that starts with a snapshot of every family
+(`createFamilySnapshot`): one `NewReferenceFile(store, family, file)` log per entry of
+`referenceFiles` (three nested `range` loops over Go maps: any order) and one
+`NewRollupFile(file, interval)` log per entry of `rollupFiles`. The next open replays those logs with
+`Log.apply`: `AddRollupFile` appends, `AddReferenceFile` skips a file that is already listed.
+In the flattened state `St` a reference of target family `i` is `(i, (source family, file))`. -/
+
+/-- one log of a family snapshot, with the family whose edit log holds it -/
+inductive SLog where
+  /-- `CreateNewReferenceFile(store, familyID, file)` in the edit log of target family `i` -/
+  | newRef (i : Iv) (k : Key)
+  /-- `CreateNewRollupFile(file, interval)` in the edit log of source family `k.1` -/
+  | newRollup (k : Key) (i : Iv)
+  deriving Repr, DecidableEq
+
+/-- `createFamilySnapshot` of all families (rollup bookkeeping only). `byLoopVar = true`: the family id
+written into a reference log is the key of the inner `range families` loop (the code: the loop
+variable shadows the function's parameter); `false`: it is the parameter, i.e. the id of the family
+being snapshotted (`own i`, as a source-family code). Which one the code has is a regenerated fact. -/
+def snapshotLogs (byLoopVar : Bool) (own : Iv → Nat) (σ : St) : List SLog :=
+  σ.refs.map (fun q => SLog.newRef q.1 (if byLoopVar then q.2 else (own q.1, q.2.2))) ++
+  σ.pending.map (fun p => SLog.newRollup p.1 p.2)
+
+/-- `Log.apply` of one snapshot log during `recover()` -/
+def restoreLog (acc : List (Key × Iv) × List (Iv × Key)) : SLog → List (Key × Iv) × List (Iv × Key)
+  | .newRef i k => if (i, k) ∈ acc.2 then acc else (acc.1, acc.2 ++ [(i, k)])
+  | .newRollup k i => (acc.1 ++ [(k, i)], acc.2)
+
+/-- replay of the snapshot logs into empty versions -/
+def restore (logs : List SLog) : List (Key × Iv) × List (Iv × Key) := logs.foldl restoreLog ([], [])
+
+/-- the versions after a restart that replays `logs` -/
+def St.restartWith (σ : St) (logs : List SLog) : St :=
+  { σ with pending := (restore logs).1, refs := (restore logs).2 }
+
+/-- one restart; `perm` is the order in which the map iterations emitted the logs -/
+def St.restart (byLoopVar : Bool) (own : Iv → Nat) (perm : List SLog → List SLog) (σ : St) : St :=
+  σ.restartWith (perm (snapshotLogs byLoopVar own σ))
+
+/-- any number of restarts in a row -/
+def St.restarts (byLoopVar : Bool) (own : Iv → Nat) (σ : St) (perms : List (List SLog → List SLog)) : St :=
+  perms.foldl (fun s f => s.restart byLoopVar own f) σ
+
+/-- histories with explicit restarts: an operation of `Op`, or a restart whose snapshot logs were
+emitted in the order `perm` -/
+inductive HOp where
+  | op (o : Op)
+  | restart (perm : List SLog → List SLog)
+
+def St.stepH (byLoopVar : Bool) (own : Iv → Nat) (σ : St) : HOp → St
+  | .op o => σ.step o
+  | .restart perm => σ.restart byLoopVar own perm
+
+def St.runH (byLoopVar : Bool) (own : Iv → Nat) (σ : St) (hs : List HOp) : St :=
+  hs.foldl (St.stepH byLoopVar own) σ
+
+/-! ## F. the target range of `merger.prepare`, second shape; the aggregate by decision table -/
+
+/-- `ctx.targetRange.End` of the rollup branch of `merger.prepare`. `mapped = true` (the code): the slot
+of the timestamp of the source end slot; `false`: `Start + (sourceEnd - sourceStart)/ratio` (a
+"simplification" that is one slot short whenever the source range starts inside a target slot). -/
+def prepEnd (mapped : Bool) (r : R) (s e : Nat) : Int :=
+  if mapped then r.calcSlot (r.getTimestamp e)
+  else r.calcSlot (r.getTimestamp s) + ((e : Int) - (s : Int)) / r.intervalRatio
+
+/-- `field.Type.AggType().Aggregate(a, b)` evaluated from the two regenerated decision tables:
+`fieldAgg` = (field type, aggregate kind) rows of `Type.AggType()`, `aggExpr` = (aggregate kind, returned
+Go expression) rows of `AggType.Aggregate`. `none` = the `panic` default of either switch. -/
+def aggByTable (fieldAgg : List (Nat × Nat)) (aggExpr : List (Nat × String)) (ft : Nat) (a b : Int) : Option Int :=
+  match fieldAgg.find? (fun e => e.1 = ft) with
+  | none => none
+  | some (_, kind) =>
+    match aggExpr.find? (fun e => e.1 = kind) with
+    | none => none
+    | some (_, e) =>
+      if e = "a + b" then some (a + b)
+      else if e = "b" then some b
+      else if e = "a" then some a
+      else if e = "math.Min(a, b)" then some (if b < a then b else a)
+      else if e = "math.Max(a, b)" then some (if a < b then b else a)
+      else none
+
 end LinVerif.Rollup
